@@ -45,11 +45,11 @@ CLAIMS = {
          "ends with at most records+1 items; after an error the step-through yields nothing; plus _refuted witnesses that the pre-fix code was "
          "unbounded. Tied to the code by capped drains of all three iterators on generated streams/sections (incl. streams ending inside a "
          "section, sections not adding up or out of bounds).", "DESIGN.md 5 (C07)"),
- "C08": ("Five theorems (Props/C08.v): C08_truncation - for every byte string from which a machine is built and every cut offset k "
+ "C08": ("Six theorems (Props/C08.v): C08_truncation - for every byte string from which a machine is built and every cut offset k "
          "(inside a field, a number, a terminator, anywhere) building from the first k bytes fails or yields exactly the machine of a "
          "whole-chain prefix of the file's sections (proved through the reads of a truncated byte string, the parse of a proper prefix of a "
          "line, numeral prefixes and the irrelevance of trailing empty blocks); the same for whole lines; a hard read failure anywhere refuses "
-         "the file; inserting Interrupted errors in any fault-free chunk schedule changes nothing. Tied to the code by cutting generated files "
+         "the file and a failure at any fill_buf of any chunk schedule reaches the stream of reads (C08_hard_fault_schedule); inserting Interrupted errors in any fault-free chunk schedule changes nothing. Tied to the code by cutting generated files "
          "at every byte offset and injecting faults at every fill_buf index.", "DESIGN.md 5 (C08), 5A"),
  "C09": ("Three theorems (Props/C09.v), corollaries of the multiset theorem: for every file, interval and cut position the base pairings of the "
          "whole are the multiset union of those of the two parts; a base maps identically through any two intervals containing it; every "
